@@ -226,7 +226,9 @@ func (r *reader) read() (m Message, err error) {
 
 	//fmt.Println("expectChunk", r.expectChunk)
 
-	if r.expectChunk {
+	// an unknown chunk is skipped and leaves expectChunk set: go on until a
+	// track chunk (or an error, e.g. the end of the data) turns up
+	for r.expectChunk && r.error == nil {
 		r.readChunk()
 	}
 
